@@ -29,5 +29,6 @@ func TestWorker(t *testing.T) {
 		"C23": checkC23,
 		"C21": checkC21,
 		"C43": checkC43,
+		"C51": checkC51,
 	})
 }
